@@ -142,7 +142,8 @@ Inductive case :=
 | CSame (v : value) (orc : oracle) (obs : list iobs)       (* all_binops on (v,v), the SAME Go object *)
 | CUn (v : value) (orc : oracle) (obs : list iobs)         (* all_unops *)
 | CCtxs (v : value) (obs : list iobs)                      (* all_ctx: IVal (VBool b) = branch taken *)
-| CCasts (v : value) (orc : oracle) (obs : list iobs).     (* (int), (float) *)
+| CCasts (v : value) (orc : oracle) (obs : list iobs)      (* (int), (float) *)
+| CAssign (v : value) (obs : list iobs).                   (* a variable with a history is assigned v: it holds v *)
 
 Definition cres_agree (c : cres) (i : iobs) : bool :=
   match c, i with
@@ -191,6 +192,14 @@ Definition check_case (c : case) : list nat :=
       check_ops lib true 0 0 all_binops v v obs ++ laws 0 obs obs
   | CUn v orc obs => check_uns (lib_of orc) 0 all_unops v obs
   | CCtxs v obs => check_ctxs 0 all_ctx v obs
+  | CAssign v obs =>
+      (* assignment routes: 4600 + i*10 + 1: the variable holds exactly the assigned value
+         (same kind; floats by bits, so 0.0 and -0.0, 1 and 1.0, "1" and 1 are all different) *)
+      (fix go (i : nat) (obs : list iobs) : list nat :=
+         match obs with
+         | ob :: obs' => (if agree (Val v) ob then [] else [(4600 + i * 10 + 1)%nat]) ++ go (S i) obs'
+         | [] => []
+         end) 0%nat obs
   | CCasts v orc obs =>
       (* casts: 4650 + i*10 + k *)
       let lib := lib_of orc in
